@@ -375,6 +375,9 @@ def step (st : DSt) (toks : List String) : DSt × String :=
                cfg := ⟨natD maxLen, boolOf silent, boolOf tz, [], al, boolOf pit, boolOf dit, sg⟩ }, "ok")
   | ["tool", hn, hl, caps] => (regTool st hn hl caps "s0", "ok")
   | ["tool", hn, hl, caps, beh] => (regTool st hn hl caps beh, "ok")
+  -- the registration route (register_function / engulf_tool with a SimpleTool or a foreign object / the constructor's
+  -- `tools=`) makes no difference to the registry
+  | ["tool", hn, hl, caps, beh, _route] => (regTool st hn hl caps beh, "ok")
   | ["untool", hn] =>
     let n := strOfHex hn
     ({ st with cfg := { st.cfg with tools := st.cfg.tools.filter (·.name ≠ n) },
